@@ -5,7 +5,7 @@ import ast
 
 from .cfg import CFG
 from .flow import ReachingDefs, yields_in
-from .project import AnalysisError, call_name, norm, walk_no_nested
+from .project import AnalysisError, call_name, norm, order, walk_no_nested
 
 
 class FnView:
@@ -40,14 +40,14 @@ class FnView:
                     out.append(c)
                 elif attr is not None and isinstance(c.func, ast.Attribute) and c.func.attr == attr:
                     out.append(c)
-        return sorted(out, key=lambda c: (c.lineno, c.col_offset))
+        return sorted(out, key=order)
 
     def yields(self):
         out = []
         for n in walk_no_nested(self.fn):
             if isinstance(n, (ast.Yield, ast.YieldFrom)):
                 out.append(n)
-        return sorted(out, key=lambda y: (y.lineno, y.col_offset))
+        return sorted(out, key=order)
 
     def defs_at(self, at_ast, name):
         """definition records of `name` reaching the statement containing at_ast."""
